@@ -658,7 +658,7 @@ Record cfg := mkCfg {
   c_v4 : famcfg;
   c_owner : option rule;           (* nat: ['--uid-owner', u]? ++ ['--gid-owner', g]?; None when neither *)
   c_udp : bool;
-  c_repaired : bool;               (* true: the repaired tproxy.restore_firewall / pf loaded flag (F9, F17);
+  c_repaired : bool;               (* true: the repaired tproxy.restore_firewall / pf loaded flag / pf disable (F9, F17, F150);
                                       false: the code as found *)
   c_nlines : nat;                  (* dialogue lines up to and including GO *)
   c_tail : list bool               (* lines after GO: true = HOST line, false = a line no method accepts *)
@@ -859,21 +859,24 @@ Definition pf_setup (faults : faultfn) (os : pfos) (f : fam) (port : tok) (body 
       (true, mkPy (py_started py6) (if okk then true else py_loaded py6) (py_tokens py6), n6, s6, evs ++ evk ++ ev6)
   end.
 
-(* pf.restore_firewall (pf.py:476-484) -> pf.disable(anchor) *)
-Definition pf_restore (faults : faultfn) (os : pfos) (f : fam) (port : tok)
+(* pf.restore_firewall (pf.py:476-484) -> pf.disable(anchor).
+   repaired = true: the flush is wrapped in try/finally (F150 fixed): when `pfctl -a A -F all` fails the
+   `pfctl -d` / `pfctl -X token` bookkeeping still runs and the flush's Fatal propagates afterwards;
+   repaired = false: the code as found stops at the failing flush. *)
+Definition pf_restore (repaired : bool) (faults : faultfn) (os : pfos) (f : fam) (port : tok)
            (py : pyctx) (n : nat) (s : kstate) : pfres :=
   let a := pf_anchor f port in
   let '(ok1, _, _, n1, s1, ev1) := pf_do faults (PFlushAnchor a) n s in
-  if negb ok1 then (false, py, n1, s1, ev1) else
+  if negb ok1 && negb repaired then (false, py, n1, s1, ev1) else
   match os with
   | Darwin =>
       (* pf.py:348-351 *)
       match rev (py_tokens py) with
-      | [] => (true, py, n1, s1, ev1)
+      | [] => (ok1, py, n1, s1, ev1)
       | t :: rest =>
           let py' := mkPy (py_started py) (py_loaded py) (rev rest) in   (* pop() happens before pfctl runs *)
           let '(ok2, _, _, n2, s2, ev2) := pf_do faults (PReleaseRef t) n1 s1 in
-          (ok2, py', n2, s2, ev1 ++ ev2)
+          (ok1 && ok2, py', n2, s2, ev1 ++ ev2)
       end
   | _ =>
       (* Generic.disable (pf.py:71-76) *)
@@ -885,12 +888,12 @@ Definition pf_restore (faults : faultfn) (os : pfos) (f : fam) (port : tok)
       let py2 := mkPy (Z.pred (py_started py)) (py_loaded py) (py_tokens py) in
       match os with
       | FreeBSD =>
-          (* pf.py:189-194: subprocess.call, rc ignored *)
-          if py_loaded py2 && Z.eqb (py_started py2) 0 then
+          (* pf.py:189-194: subprocess.call, rc ignored; not reached when super().disable raised *)
+          if ok1 && py_loaded py2 && Z.eqb (py_started py2) 0 then
             let '(_, _, _, n3, s3, ev3) := pf_do faults PKldUnload n2 s2 in
             (true, py2, n3, s3, ev1 ++ ev2 ++ ev3)
-          else (true, py2, n2, s2, ev1 ++ ev2)
-      | _ => (true, py2, n2, s2, ev1 ++ ev2)
+          else (ok1, py2, n2, s2, ev1 ++ ev2)
+      | _ => (ok1, py2, n2, s2, ev1 ++ ev2)
       end
   end.
 
@@ -923,7 +926,7 @@ Definition do_setup (faults : faultfn) (c : cfg) (f : fam) (py : pyctx) (n : nat
 
 Definition do_restore (faults : faultfn) (c : cfg) (f : fam) (py : pyctx) (n : nat) (s : kstate) : pfres :=
   match c_method c with
-  | MPf os => pf_restore faults os f (fc_port (fcfg c f)) py n s
+  | MPf os => pf_restore (c_repaired c) faults os f (fc_port (fcfg c f)) py n s
   | _ => let '(ok, n', s', ev) := run faults (restore_prog c f) n s in (ok, py, n', s', ev)
   end.
 
